@@ -291,7 +291,8 @@ class Pipeline:
         self.gen_mod = src.mod("codegen/python/python_generator.py")
         self.gen_cls = self.gen_mod.get_class("PythonCodeGen")
         self.token_kinds = self._token_kinds()
-        cands = [pr.syms[1] for pr in self.grammar.by_name("header_id") if len(pr.syms) == 2]
+        first = self.grammar.by_name(self.grammar.start)[0].syms[0] if self.grammar.by_name(self.grammar.start) else None
+        cands = [pr.syms[1] for pr in self.grammar.by_name(first) if len(pr.syms) == 2 and pr.syms[1] in self.grammar.terminals] if first else []
         self.ident_token = cands[0] if cands else "ID"
 
     def _main_lexer(self) -> LexerClass:
@@ -450,7 +451,11 @@ class Outcome:
         self.text = "".join(p if isinstance(p, str) else placeholder(p.sym, p.render) for p in self.tmpl.parts)
         try:
             self.tree = ast.parse(self.text)
+            # symbol-table errors (duplicate argument, return outside function, ...) are only found by the
+            # compiler proper; compile() does not execute anything
+            compile(self.text, "<generated>", "exec", dont_inherit=True)
         except SyntaxError as e:
+            self.tree = None
             self.syntax_error = f"{e.msg} (line {e.lineno}: {(e.text or '').strip()[:80]})"
 
     def holes(self):
